@@ -27,3 +27,26 @@ def register(reg):
     ex.ctx.use_trusted('file.read')
     return [(st, VStr(z3.Function('file_read', z3.IntSort(), z3.StringSort())(args[0].t)))]
   tm[('file', 'read')] = file_read
+
+  # ---- threading.Event: an atomic boolean register (heap field event.flag)
+  reg.shape('event', flag='bool')
+
+  def ev_is_set(ex, st, args, kwargs):
+    ex.ctx.use_trusted('threading.Event')
+    ex.event(st, ('event.is_set', args[0].t))
+    return [(st, ex.read_field(st, args[0], 'flag'))]
+
+  def ev_set(ex, st, args, kwargs):
+    ex.ctx.use_trusted('threading.Event')
+    ex.event(st, ('event.set', args[0].t))
+    ex.write_field(st, args[0], 'flag', VBool(True))
+    return [(st, NONE)]
+
+  def ev_clear(ex, st, args, kwargs):
+    ex.ctx.use_trusted('threading.Event')
+    ex.event(st, ('event.clear', args[0].t))
+    ex.write_field(st, args[0], 'flag', VBool(False))
+    return [(st, NONE)]
+  tm[('event', 'is_set')] = ev_is_set
+  tm[('event', 'set')] = ev_set
+  tm[('event', 'clear')] = ev_clear
